@@ -172,6 +172,11 @@ def report(pid, tier, seed, m, sel, res, findings, cmd, t0, outdir):
     # looks exactly like that) -> undecided there, not a violation.  (b) A new *trait-method override* (nth, nth_back,
     # fold, ...) on a type whose other methods carry clauses of this property replaces a std default the property
     # relies on; nothing here can vouch for it -> undecided.  In both cases the bounded stand-in search follows.
+    dead = set(k for k, f in m["functions"].items() if f.get("expanded_everywhere"))
+    if dead:
+        mine = [f for f in mine if f["fn"] not in dead]
+        others = [f for f in others if f["fn"] not in dead]
+        masked = [f for f in masked if f["fn"] not in dead]
     unknown = m.get("without_record", [])
     uname = set(k.split("::")[-1].split("@")[0] for k in unknown)
     leaning = set(k for k, f in m["functions"].items() if k not in unknown and uname & set(f.get("callees", [])))
